@@ -1,6 +1,9 @@
 """C09 — program-level three-way comparison (Go interpreter, Lean model evaluator, Lean spec semantics)."""
 from props import progs, sites
 from props.progs import replay  # noqa
+from zngen import *
+
+LATE_MARK = '末尾记'
 
 GEN = 'exc'
 RULE = ("call chains of depth 1–5 with one fault planted at a generator-known depth (抛出异常, custom exception type, 1/0, index out of "
@@ -9,7 +12,9 @@ RULE = ("call chains of depth 1–5 with one fault planted at a generator-known 
         "outer handler 1…n levels further out or none; in half of the programs some levels are methods of objects (receiver 体i) that "
         "display 其名 and increment 其次 after the level below has returned; after the call the caller probes its own variables, "
         "redeclares a callee-local name, calls again, displays every object and (sometimes) reads 其 in the program body (error 48); "
-        "three hand-written programs head the stream. Non-trivial = the fault was raised below the handler's depth or not handled at all.")
+        "three hand-written programs head the stream; a third of the programs end with one more, uncaught fault (1/0, undefined name, 抛出, "
+        "a call of a failing method) after the display of a marker: when the spec says the marker was reached and the program failed, the "
+        "chain of the rendered error must be the generator's ground truth (only the calls active THEN). stream exc-modules: further programs of the same kind with a closed set of their methods / types moved into an imported module file (two files through LoadFile; Go = evaluator model on the whole answer incl. the location chain with module names, Go = spec semantics of the one-file program on result and trace). Non-trivial = the fault was raised below the handler's depth or not handled at all.")
 ASSUMPTIONS = ["the message text of runtime faults is the implementation's (model prints ‹rt:code›; compared modulo that)"]
 PARTIAL = "reading 其内容 of a runtime fault is 'unspecified' in the spec semantics (message text is not part of the property)"
 
@@ -18,5 +23,48 @@ def run(ctx):
     sites.report(ctx)   # regenerated site inventory vs the modelled sites (diagnosis of a broken obligation; DESIGN §12)
     g = progs.G(ctx.rng)
     n = ctx.n(2000, 50000)
-    ps = progs.hand_exc() + [g.exc_program() for _ in range(n)]
-    progs.run_stream(ctx, 'exc', ps, nontrivial=lambda src, go: '层2' in src or '拦截' not in src)
+    hand = progs.hand_exc()
+    ps = hand + [g.exc_program() for _ in range(n)]
+    # "unwind cleanly", seen from a LATER error: a third of the programs end with one more fault after everything else (right after
+    # the display of a marker). Whenever the spec says that the program got as far as the marker and then failed, the error is that
+    # fault, and its chain is the generator's ground truth: the line of the statement in the program body (plus the line of the 抛出
+    # inside 必败 when the fault is a call of it) — none of the calls that failed and were handled before may appear
+    rng = ctx.rng
+    late = {}
+    for k in range(len(hand), len(ps)):
+        if rng.random() < 0.35:
+            p = ps[k][0]
+            kind = rng.choice(['div', 'name', 'throw', 'call', 'call'])
+            if kind == 'div':
+                st = ExprS(Call('显示', [Bin('/', Num('1'), Num('0'))]))
+            elif kind == 'name':
+                st = ExprS(Call('显示', [Var('未定名末')]))
+            elif kind == 'throw':
+                st = Throw('异常', [Str('末')])
+            else:
+                st = ExprS(Call('显示', [Call('必败', [])]))
+                for d in p.body:
+                    if isinstance(d, Func) and d.name == '必败':
+                        d.body[0].tag = 'late_inner'
+            st.tag = 'late_fault'
+            p.body += [ExprS(Call('显示', [Str(LATE_MARK)])), st]
+            late[k] = kind
+    srcs, go, model, spec = progs.run_stream(ctx, 'exc', ps, nontrivial=lambda src, go: '层2' in src or '拦截' not in src)
+    mark = LATE_MARK.encode().hex()
+    for k, kind in late.items():
+        s = spec[k]
+        if not (s.startswith('err') and s.endswith(mark)):
+            ctx.count('late-fault:not-reached-or-handled')
+            continue
+        tags = ps[k][0].tags
+        exp = 'main:%d' % (tags['late_fault'] + 1) + ('>main:%d' % (tags['late_inner'] + 1) if kind == 'call' else '')
+        f = go[k].split(' ')
+        got = f[3] if go[k].startswith('err') and len(f) > 3 else go[k]
+        ctx.count('late-fault:chain-compared')
+        ctx.evaluations += 1
+        if got != exp:
+            ctx.violation('exc:late-fault-chain', 'run ' + cps(srcs[k]), go[k], 'expected chain ' + exp)
+    # the same kind of programs with some of the levels (and what they call) in an imported module: the exception crosses the module
+    # boundary on its way to the handler, the caller's module is current again afterwards
+    more = [g.exc_program() for _ in range(ctx.n(700, 20000))]
+    progs.run_split_stream(ctx, 'exc-modules', more, nontrivial=lambda src, go: '层2' in src or '拦截' not in src)
